@@ -11,6 +11,10 @@
     pevalsubs <i> <poly q> <pdiagram>    -> ok <n> poly*      (eval d) with x_i := q entrywise
     pgrad <checksFS> <i> <pdiagram>      -> ok <terms> <n> poly*   eval of d.grad(x_i), number of terms
     pjac <checksFS> <k> <i>* <pdiagram>  -> ok <n> poly*      eval of d.jacobian([x_i…])
+    psumgrad <sumHasGrad> <checksFS> <i> <k> <pdiagram>*  -> ok <terms> <n> poly*
+                                         eval of (d_1 + … + d_k).grad(x_i), number of terms (Model/ParamSum.lean)
+    pgrad2 <sumHasGrad> <checksFS> <i> <j> <pdiagram>     -> ok <terms> <n> poly*
+                                         eval of d.grad(x_i).grad(x_j), number of terms
   xlayer    := <dims left> <dims right> 0 <dims box.dom> <dims box.cod> <dagger 0|1> <n> poly*      plain box
              | <dims left> <dims right> 1 <dims dom> <dims cod> <n> <coeff>* <nlayers> layer*    bubble: func = Σ coeff_k x^k
   xdiagram  := <dims dom> <nlayers> xlayer*
@@ -22,12 +26,19 @@
     pviews <i> <poly q> <pdiagram>       -> ok <k> (<n> poly*)* <k> (<n> poly*)* <k> <offset>*
                                             data of the boxes of d.subs(x_i,q) read from .boxes, from
                                             .layers, and its offsets
+  nested box data (Model/ParamData.lean):
+  pdata     := L <poly> | Z <poly> | N <list|tuple|set|frozenset|dict|ndarray> <n> pdata*
+    dfree <zeroDItem> <pdata>                  -> ok <k> <index>*   free symbols a box with this data reports
+    dsubsfree <zeroDItem> <i> <poly q> <pdata> -> ok <k> <index>*   …after box.subs(x_i, q)
+    dsubs <zeroDItem> <i> <poly q> <pdata>     -> ok <n> poly*      entries of the data of box.subs(x_i, q)
     csubs <fixC> <fixD> <fixH> <cls> <hit> <hasData> <hasSyms> <kind> <nin> <nout> <dagger> <mixed 0|1|2>
                                          -> ok <kind> <nin> <nout> <dagger> <mixed> | err exc:AttributeError
 -/
 import Driver.Codec
 import Model.Param
 import Model.ParamSeq
+import Model.ParamData
+import Model.ParamSum
 
 namespace DV.ParamCmd
 open DV DV.Codec DV.Param
@@ -125,6 +136,24 @@ def pAttr (a : Attr) : String :=
   s!"{a.kind} {a.nin} {a.nout} {if a.dagger then 1 else 0} " ++
     (match a.mixed with | some false => "0" | some true => "1" | none => "2")
 
+def ctr : P Ctr := do
+  let t ← tok
+  match t with
+  | "list" => pure .list | "tuple" => pure .tuple | "set" => pure .set
+  | "frozenset" => pure .frozenset | "dict" => pure .dict | "ndarray" => pure .ndarray
+  | _ => throw s!"bad container {t}"
+
+partial def pdata : P (PData Poly) := do
+  let t ← tok
+  match t with
+  | "L" => do pure (.leaf (← poly))
+  | "Z" => do pure (.zeroD (← poly))
+  | "N" => do
+    let c ← ctr
+    let kids ← many pdata
+    pure (.node c (PForest.ofList kids))
+  | _ => throw s!"bad pdata {t}"
+
 def run {α} (p : P α) (rest : List String) (k : α → String) : String :=
   match p.run rest with
   | .error m => "bad " ++ m
@@ -168,12 +197,32 @@ def handle (cmd : String) (rest : List String) : Option String :=
       fun (f, vs, d) =>
         let grads := vs.map (fun v => evalSum (d.grad f v))
         "ok " ++ pMat (jacobianMat (prod d.cod) grads) (prod d.dom) (vs.length * prod d.cod)
+  | "psumgrad" => some <| run (do
+        let sf ← bool; let f ← bool; let i ← nat; let ds ← many pdiagram; pure (sf, f, i, ds)) rest
+      fun (sf, f, i, ds) =>
+        match ds with
+        | [] => "bad empty sum"
+        | d :: _ =>
+          let g := polySumGrad sf f i (ds.map (·.layers))
+          s!"ok {g.length} " ++ pMat (evalSum g) (prod d.dom) (prod d.cod)
+  | "pgrad2" => some <| run (do
+        let sf ← bool; let f ← bool; let i ← nat; let j ← nat; let d ← pdiagram; pure (sf, f, i, j, d)) rest
+      fun (sf, f, i, j, d) =>
+        let g := polyGradTwice sf f i j d.layers
+        s!"ok {g.length} " ++ pMat (evalSum g) (prod d.dom) (prod d.cod)
   | "xeval" => some <| run xdiagram rest fun (dom, ls) =>
       "ok " ++ pMat (xevalLayers Poly.const ls) (prod dom) (prod (xcod dom ls))
   | "xgrad" => some <| run (do let f ← bool; let i ← nat; let d ← xdiagram; pure (f, i, d)) rest
       fun (f, i, (dom, ls)) =>
         let g := polyXGrad f i ls
         s!"ok {g.length} " ++ pMat (xevalSum Poly.const g) (prod dom) (prod (xcod dom ls))
+  | "dfree" => some <| run (do let z ← bool; let d ← pdata; pure (z, d)) rest
+      fun (z, d) => "ok " ++ pList toString (d.freeSymbols z Poly.vars)
+  | "dsubsfree" => some <| run (do let z ← bool; let i ← nat; let q ← poly; let d ← pdata; pure (z, i, q, d)) rest
+      fun (z, i, q, d) =>
+        "ok " ++ pList toString ((d.boxSubs z Poly.vars [i] (Poly.subst1 i q)).freeSymbols z Poly.vars)
+  | "dsubs" => some <| run (do let z ← bool; let i ← nat; let q ← poly; let d ← pdata; pure (z, i, q, d)) rest
+      fun (z, i, q, d) => "ok " ++ pList pPoly (d.boxSubs z Poly.vars [i] (Poly.subst1 i q)).entries
   | "csubs" => some <| run (do
         let c ← bool; let dg ← bool; let h ← bool
         let k ← cls; let hit ← bool; let hasData ← bool; let hasSyms ← bool; let a ← attr
